@@ -24,8 +24,8 @@ import (
 	"io/ioutil"
 	"math/big"
 	"net/http"
-	"net/url"
 	"net/http/httptest"
+	"net/url"
 	"path/filepath"
 	"reflect"
 	"runtime"
@@ -313,11 +313,12 @@ const c16BootOTP = "bootstrap-otp-value"
 const c16TotpSecret = "JBSWY3DPEHPK3PXPJBSWY3DPEHPK3PXP"
 
 type c16World struct {
-	env      *verifEnv
-	token    *c16Token
-	admin    *http.Cookie
-	signBody []byte // the token's answer to alice's outstanding U2F challenge
-	pending  c16Pending // a federated login that was started and waits for its callback (when OAuth2 is configured)
+	env       *verifEnv
+	token     *c16Token
+	admin     *http.Cookie
+	signBody  []byte     // the token's answer to alice's outstanding U2F challenge
+	writeLast bool       // reset ends with a write of every profile (nothing was read since)
+	pending   c16Pending // a federated login that was started and waits for its callback (when OAuth2 is configured)
 }
 
 func (cw *c16World) reset(t *testing.T) {
@@ -372,6 +373,17 @@ func (cw *c16World) reset(t *testing.T) {
 		t.Fatalf("sign request refused: %d %s", rr.Code, rr.Body.String())
 	}
 	cw.signBody = cw.token.sign(rr.Body.Bytes())
+	if cw.writeLast {
+		// the schedule starts from a state in which the last storage operation on every profile was a
+		// write (the preparation above ends with a request that reads alice's profile)
+		for _, u := range []string{c16Alice, c16Bob} {
+			if p, ok, _, err := st.LoadUserProfile(u); err == nil && ok {
+				if err := st.SaveUserProfile(u, p); err != nil {
+					t.Fatal(err)
+				}
+			}
+		}
+	}
 }
 
 func (cw *c16World) challenge(u string) bool {
@@ -813,6 +825,7 @@ func TestVerif_C16(t *testing.T) {
 		var runs []runObs
 		var counterNow int64
 		verifLoadedOn.Store(grp.loaded)
+		cw.writeLast = grp.loaded
 		mk := func() []func() {
 			cw.reset(t)
 			counterNow = time.Now().Unix() / 30
@@ -875,6 +888,7 @@ func TestVerif_C16(t *testing.T) {
 			return true
 		}, limit)
 		verifLoadedOn.Store(false)
+		cw.writeLast = false
 		if err != nil {
 			res.hit(verifHit{Key: "C16:harness:schedule:" + gname, Oracle: "harness", What: "schedule replay failed: " + err.Error(), Case: gname})
 			continue
@@ -956,8 +970,8 @@ func TestVerif_C16(t *testing.T) {
 					}
 					res.hit(verifHit{Key: "C16:double-spend:" + rp.kind + ":" + when, Kind: "schedule",
 						Oracle: "a one-time value that was honoured is not honoured again when the same bytes are presented after all requests of the schedule were answered",
-						What: fmt.Sprintf("requests %v under schedule %s (parking points%s): answers %v; then the %s of %s was presented once more and answered 200 again", g, strings.Join(sched, ""), c16AllPoints(r.trace), r.outcome.resp, rp.kind, rp.name),
-						Case: map[string]interface{}{"requests": g, "schedule": sched, "points": c16AllPoints(r.trace), "replayed": rp.name}, Observed: r.outcome.key()})
+						What:   fmt.Sprintf("requests %v under schedule %s (parking points%s): answers %v; then the %s of %s was presented once more and answered 200 again", g, strings.Join(sched, ""), c16AllPoints(r.trace), r.outcome.resp, rp.kind, rp.name),
+						Case:   map[string]interface{}{"requests": g, "schedule": sched, "points": c16AllPoints(r.trace), "replayed": rp.name}, Observed: r.outcome.key()})
 				}
 			}
 			// the model has no parking point inside a load: a load takes the value the store has at the
@@ -1114,8 +1128,8 @@ func c16UnsealSchedules(t *testing.T, res *verifResult) (cases, idx []string) {
 					}
 					res.hit(verifHit{Key: "C16:unsealed-incomplete-keys:" + name, Kind: "schedule",
 						Oracle: "a request served while the unseal request runs sees the server either sealed or unsealed with its complete key material",
-						What: fmt.Sprintf("requests %v under schedule %s (parking points%s): GET %s was answered 200 with %d bytes %q while the same request after the unseal has finished gives %d bytes", g, strings.Join(sched, ""), c16AllPoints(trace), routes[name], len(r.bodies[i]), c16Trunc(r.bodies[i]), rr.Body.Len()),
-						Case: map[string]interface{}{"requests": g, "schedule": sched}})
+						What:   fmt.Sprintf("requests %v under schedule %s (parking points%s): GET %s was answered 200 with %d bytes %q while the same request after the unseal has finished gives %d bytes", g, strings.Join(sched, ""), c16AllPoints(trace), routes[name], len(r.bodies[i]), c16Trunc(r.bodies[i]), rr.Body.Len()),
+						Case:   map[string]interface{}{"requests": g, "schedule": sched}})
 				}
 			}
 			return true
